@@ -1528,6 +1528,8 @@ def pyops(a, b):
 
 def check_intint(ctx, model, quick, built):
     """built: {cfg: module name}; three-way: compiled helper / extracted model / CPython"""
+    import time
+    t_start = time.time()
     rng = ctx.rng
     pairs = gen_int_pairs(rng, quick)
     triples = gen_int_triples(rng, pairs, quick)
@@ -1544,8 +1546,14 @@ def check_intint(ctx, model, quick, built):
             "triples": [[vi(a), vi(b), vi(c)] for a, b, c, _ in triples], "extra": II_EXTRA}
     spec["values"] = vals
     src = ii_source()
+    import concurrent.futures as cf
+    with cf.ThreadPoolExecutor(max_workers=2) as ex:
+        futs = {cfg: ex.submit(cybuild.run_script, II_WORKER, ctx.workdir, dict(spec, module=modname), 900, None, None,
+                               "drv_ii_%s.py" % cfg) for cfg, modname in built.items()}
+        runs = {cfg: f.result() for cfg, f in futs.items()}
+    plan, allq = {}, []
     for cfg, modname in built.items():
-        r = cybuild.run_script(II_WORKER, ctx.workdir, dict(spec, module=modname), timeout=900, name="drv_ii_%s.py" % cfg)
+        r = runs[cfg]
         res = r["json"]
         if res is None or len(res["pairs"]) != len(pairs) or len(res["triples"]) != len(triples):
             ctx.corr_break("intint worker " + cfg, modname, (r["err"] or r["out"])[-1500:], "runs")
@@ -1558,10 +1566,14 @@ def check_intint(ctx, model, quick, built):
             for key in ((a, b, sab), (b, c, sbc), (a, c, sac)):
                 if key not in link:
                     link[key] = len(q); q.append("row %s %d %d %d" % (cfg, key[2], key[0], key[1]))
+        m0 = len(q)
         if cfg == "312" and res["mem"]:
-            m0 = len(q)
             q += ["mem 312 %s" % s for s in vals]
-        mres = model.batch(q)
+        plan[cfg] = (res, link, m0, len(allq), len(q))
+        allq += q
+    allres = model.batch(allq)
+    for cfg, (res, link, m0, off, nq) in plan.items():
+        mres = allres[off:off + nq]
         nfun = len(pair_fns) // 6
         for i, (a, b, same, fam) in enumerate(pairs):
             isame, got = res["pairs"][i]
@@ -1624,6 +1636,7 @@ def check_intint(ctx, model, quick, built):
             ctx.case("intint/%s/non-exact-operands(differential)" % cfg, inp, sig=(cfg, fn, repr(a), repr(b)))
             if g != e:
                 ctx.fail("pyobject_compare_nonexact_wrong_result", inp, g, e)
+    ctx.extra["intint_seconds"] = round(time.time() - t_start, 1)
     ctx.extra["intint_pairs"] = len(pairs)
     ctx.extra["intint_triples"] = len(triples)
 
